@@ -2,6 +2,7 @@ import EpModel.Driver.Util
 import EpModel.Model.Checksum
 import EpModel.Model.ChecksumFast
 import EpModel.Model.ChecksumWire
+import EpModel.Model.ChecksumIgmp
 import EpModel.Spec.Rfc1071
 /- `ck.*` operations: checksum helpers. -/
 namespace EpModel.Driver.Ck
@@ -78,8 +79,12 @@ def run (op : String) (args : List String) : Option String :=
       if src.length ≠ 16 ∨ dst.length ≠ 16 ∨ m.length < 8 then none
       else pure s!"ok({wireIcmp6 src dst m}) valid={validIcmp6 src dst m}"
   | "ck.w.igmp", [m] => do
+      -- the model of the crate's own chain of add_* calls (= `wireIgmp m` by Props/C09Wire.lean `igmp_chain_is_wire`;
+      -- the python oracle computes the RFC value independently)
       let m ← argHex m
-      if m.length < 8 then none else pure s!"ok({wireIgmp m})"
+      match Codec.Igmp.fromSlice m with
+      | .ok (h, rest) => pure s!"ok({igmpChecksum h.ty rest})"
+      | .error _ => none
   | "spec.ck.rfc", [h] => do
       let b ← argHex h
       pure (toString (Spec.checksum b))
